@@ -207,10 +207,18 @@ fn prop() -> DataProp {
     }
 }
 
+fn extra_worker(_tier: &str, task: &serde_json::Value, io: &mut crate::pool::WorkerIo) -> Option<serde_json::Value> {
+    super::bytesfam::worker(task, io)
+}
+
+fn extra_parent(pool: &crate::pool::Pool, _tier: &str, report: &mut crate::report::RunReport) -> serde_json::Value {
+    super::bytesfam::parent(pool, report, "C03", &["list", "set", "hash"])
+}
+
 pub fn parent(tier: &str) -> i32 {
-    e1common::data_parent(&prop(), tier, None)
+    e1common::data_parent(&prop(), tier, Some(&extra_parent))
 }
 
 pub fn handle_factory() -> impl FnMut(&str, &serde_json::Value, &mut crate::pool::WorkerIo) -> (serde_json::Value, bool) {
-    e1common::data_handle_factory(make_world, None)
+    e1common::data_handle_factory(make_world, Some(extra_worker))
 }
